@@ -136,7 +136,19 @@ def gen_cases(rng, tier):
   nh = 36 if tier == "quick" else 420
   for i in range(nh):
     pool = [gen_model(rng, i + j) for j in range(rng.choice([2, 3, 4]))]
-    nops = rng.randint(10, 60)
+    if i % 4 == 1:
+      # a model with a form that FAILS at r = 0 (it calls as.coul there, under an explicit '>=0' range) and is
+      # fine elsewhere: an evaluation that raised must leave nothing behind - later evaluations of the same objects are what
+      # a fresh process gives
+      q_ = spec.rfloat(rng, 0.5, 3.0, 2)
+      sing = {"type": "pair", "target": rng.choice(["LAMMPS", "DLPOLY"]), "tab": {"nr": 8, "cutoff": 4.0}, "tables": [],
+              "forms": [{"name": "form0", "params": ["r", "q"], "breaks": [], "expr": ["+", ["call", "as.coul", [["var", "r"], ["var", "q"], ["var", "q"]]], ["*", ["num", 0.5], ["var", "r"]]]},
+                        {"name": "form1", "params": ["r", "q"], "breaks": [], "expr": ["*", ["num", 2.0], ["call", "form0", [["var", "r"], ["var", "q"]]]]}],
+              "pair": [["Al", "Al", {"k": "ranges", "parts": [[">=", 0.0, {"k": "custom", "name": "form0", "args": [q_]}]]}],
+                       ["Al", "Cu", {"k": "ranges", "parts": [[">=", 0.0, {"k": "custom", "name": "form1", "args": [q_ + 1.0]}]]}],
+                       ["Cu", "Cu", {"k": "custom", "name": "form0", "args": [q_ + 2.0]}]]}
+      pool.append({"model": sing, "route": "potable"})
+    nops = rng.randint(10, 60) + (40 if i % 4 == 1 else 0)
     cases.append({"kind": "history", "pool": pool, "nops": nops, "seed": rng.randrange(1 << 30)})
   # API usage variant: ONE parsed ConfigParser object reused for several outputs (read_from_parser twice, filtered
   # views of it created and tabulated in between): every output equals what a fresh process gives for that model
